@@ -43,9 +43,21 @@ def Released (c : Cfg) (s s' : St) (x : Arr) : Prop :=
    (∃ b blk blk', 0 < x.n ∧ x.base = some b ∧ s.blocks[b]? = some blk ∧ blk.freed = false ∧
       s'.blocks = s.blocks.set b blk' ∧ blk'.freed = true ∧ FreedOK c blk' ∧ blk'.freedBy = x.alloc ∧ blk'.alloc = blk.alloc))
 
-/-- `destroy(); deallocate()` of a live array of the pool (under the invariant): never throws, never undefined -/
-theorem release_out (c : Cfg) (hwf : c.WF) (i : Nat) (x : Arr) (s : St) {Q : St → Prop} {T : Prop}
-    (hI : InvS c s) (hi : s.arrs[i]? = some (some x)) :
+/-- what the release needs to know: a non-empty array points to an outstanding block of its size whose cells are all alive -/
+def HasBlock (c : Cfg) (B : List Block) (x : Arr) : Prop :=
+  0 < x.n → ∃ b blk, x.base = some b ∧ B[b]? = some blk ∧ blk.freed = false ∧ blk.size = x.n ∧ CellsOK c blk
+
+theorem HasBlock.of_inv {c : Cfg} {s : St} {i : Nat} {x : Arr} (hI : InvS c s) (hi : s.arrs[i]? = some (some x)) :
+    HasBlock c s.blocks x := fun hn => hI.valid i x hi hn
+
+theorem HasBlock.append {c : Cfg} {B : List Block} {x : Arr} (h : HasBlock c B x) (nb : Block) : HasBlock c (B ++ [nb]) x := by
+  intro hn
+  obtain ⟨b, blk, hb, hB, r⟩ := h hn
+  have hlt : b < B.length := (List.getElem?_eq_some_iff.mp hB).1
+  exact ⟨b, blk, hb, by rw [List.getElem?_append_left hlt]; exact hB, r⟩
+
+/-- `destroy(); deallocate()` of an array that has its block: never throws, never undefined -/
+theorem release_raw (c : Cfg) (hwf : c.WF) (x : Arr) (s : St) {Q : St → Prop} {T : Prop} (hblk : HasBlock c s.blocks x) :
     Out ((do destroyAll c x.base x.n; deallocate c x.alloc x.base x.n : M Unit) s) (fun _ s' => Released c s s' x) Q T := by
   by_cases hn : x.n = 0
   · rw [hn]
@@ -55,7 +67,7 @@ theorem release_out (c : Cfg) (hwf : c.WF) (i : Nat) (x : Arr) (s : St) {Q : St 
     intro _ s2 h2; subst h2
     exact ⟨NF.refl _, rfl, Or.inl ⟨hn, rfl⟩⟩
   · have hpos : 0 < x.n := by omega
-    obtain ⟨b, blk, hb, hB, hf, hsz, hc⟩ := hI.valid i x hi hpos
+    obtain ⟨b, blk, hb, hB, hf, hsz, hc⟩ := hblk hpos
     rw [hb]
     apply Out.bind (destroyAll_out c hwf b x.n s hpos hB hf hsz hc) _ (fun _ h => h)
     intro _ s1 ⟨cs', h1, hlen, hraw⟩
@@ -67,6 +79,12 @@ theorem release_out (c : Cfg) (hwf : c.WF) (i : Nat) (x : Arr) (s : St) {Q : St 
     rw [h2.blocks, h1.blocks]
     unfold withCells
     rw [List.set_set]
+
+/-- `destroy(); deallocate()` of a live array of the pool (under the invariant) -/
+theorem release_out (c : Cfg) (hwf : c.WF) (i : Nat) (x : Arr) (s : St) {Q : St → Prop} {T : Prop}
+    (hI : InvS c s) (hi : s.arrs[i]? = some (some x)) :
+    Out ((do destroyAll c x.base x.n; deallocate c x.alloc x.base x.n : M Unit) s) (fun _ s' => Released c s s' x) Q T :=
+  release_raw c hwf x s (HasBlock.of_inv hI hi)
 
 /-- after the release the slot may be overwritten by anything that owns nothing -/
 theorem Released.inv {c : Cfg} {s s' : St} {i : Nat} {x : Arr} {new : Option Arr} (hr : Released c s s' x) (hI : InvS c s)
@@ -101,6 +119,32 @@ theorem Released.length {c : Cfg} {s s' : St} {x : Arr} (hr : Released c s s' x)
   rcases h with ⟨_, hb⟩ | ⟨b, blk, blk', _, _, _, _, hB', _⟩
   · rw [hb]
   · rw [hB', List.length_set]
+
+/-- `clear()` of an array that has its block, on a heap that need not satisfy the invariant (e.g. while a freshly built
+    block is still held in a local variable) -/
+theorem clearArr_raw (c : Cfg) (hwf : c.WF) (i : Nat) (x : Arr) (s : St) {Q : St → Prop} {T : Prop}
+    (hblk : HasBlock c s.blocks x) :
+    Out (clearArr c i x s)
+      (fun x' s' => x' = { x with ext := emptyExts c.dim, n := 0 } ∧ NF s s' ∧ s'.arrs = s.arrs.set i (some x') ∧
+        ∃ sr, Released c s sr x ∧ s'.blocks = sr.blocks) Q T := by
+  unfold clearArr
+  have hrel := release_raw (Q := Q) (T := T) c hwf x s hblk
+  show Out ((destroyAll c x.base x.n >>= fun _ => deallocate c x.alloc x.base x.n >>= fun _ =>
+      (setSlot i (some { x with ext := emptyExts c.dim, n := 0 }) >>= fun _ => pure { x with ext := emptyExts c.dim, n := 0 })) s) _ _ _
+  have hassoc : (destroyAll c x.base x.n >>= fun _ => deallocate c x.alloc x.base x.n >>= fun _ =>
+      (setSlot i (some { x with ext := emptyExts c.dim, n := 0 }) >>= fun _ => (pure { x with ext := emptyExts c.dim, n := 0 } : M Arr))) s
+      = ((do destroyAll c x.base x.n; deallocate c x.alloc x.base x.n : M Unit) >>= fun _ =>
+      (setSlot i (some { x with ext := emptyExts c.dim, n := 0 }) >>= fun _ => (pure { x with ext := emptyExts c.dim, n := 0 } : M Arr))) s := by
+    show M.bind _ _ s = M.bind (M.bind _ _) _ s
+    unfold M.bind
+    cases destroyAll c x.base x.n s <;> rfl
+  rw [hassoc]
+  apply Out.bind hrel _ (fun _ h => h)
+  intro _ s1 hr
+  apply Out.bind (setSlot_out i _ s1) _ (fun _ h => h)
+  intro _ s2 h2
+  apply Out.pure'
+  exact ⟨rfl, fun h => h2.fuel (hr.1 h), by rw [h2.arrs, hr.2.1], s1, hr, h2.blocks⟩
 
 /-- `clear()` -/
 theorem clearArr_out (c : Cfg) (hwf : c.WF) (i : Nat) (x : Arr) (s : St) {Q : St → Prop} {T : Prop}
